@@ -28,6 +28,8 @@ type loopEnv struct {
 	s2Reached   bool                // both S2 sentinels were seen at the opposite sites
 	quietFrom   map[string]int      // site → length of its effect log when both S2 were visible
 	quietRounds int                 // sentinel rounds completed after S2
+	idleDone    bool                // the idle rounds and their flush round completed
+	idleMarks   map[string][]int    // site → length of its effect log at the start of each idle (heartbeat-only) round and of the flush round
 	rounds      int                 // sentinel rounds completed in total
 	aborted     string              // why the loop stopped early ("" = ran to the end)
 	problems    []string            // harness-side doubts (links that ended by themselves, watchdogs, error replies to link commands)
@@ -109,6 +111,15 @@ func reservedClass(k string) string {
 	return "other-reserved"
 }
 
+// fwdUnit is one transaction a link wrote at a site (marker [+ business commands] [+ record]).
+type fwdUnit struct {
+	txn  int64
+	idx  int // position of its first command in the site's effect log
+	nBiz int
+	ids  []string
+	dump []string
+}
+
 type bizEntry struct {
 	app    *fakeredis.App
 	id     string
@@ -122,6 +133,7 @@ type siteView struct {
 	ownCP       string
 	biz         []bizEntry
 	units       map[int64]bool // link transactions carrying business commands
+	fwd         []*fwdUnit     // every transaction of the link that carries a marker, business commands or not
 	toolErrs    []string
 	mirrored    int // link-written transactions as they appear in X's own replication stream (the opposite link must suppress them)
 	shrunk      int // … of which only bookkeeping survived the no-op omission
@@ -161,6 +173,28 @@ func (e *loopEnv) view(run *harness.Run, X string) *siteView {
 			return true // namespace unknown: cannot tell (reported by the caller)
 		}
 		return strings.HasPrefix(k, v.ownCP) || strings.HasPrefix(k, checkpoint.BisyncKeyPrefix+":"+v.ownCP+":")
+	}
+	fwdByTxn := map[int64]*fwdUnit{}
+	for i := range apps {
+		a := &apps[i]
+		if _, h := harn[a.Conn]; h || !a.Write || a.IsErr || a.Txn == 0 {
+			continue
+		}
+		u := fwdByTxn[a.Txn]
+		if u == nil {
+			u = &fwdUnit{txn: a.Txn, idx: a.Idx}
+			fwdByTxn[a.Txn] = u
+		}
+		u.dump = append(u.dump, appStr(a))
+		if a.Cmd == "SET" && len(a.Args) >= 2 && checkpoint.IsBisyncMarkerKey(string(a.Args[0])) {
+			if len(v.fwd) == 0 || v.fwd[len(v.fwd)-1] != u {
+				v.fwd = append(v.fwd, u)
+			}
+		}
+		if !touchesReserved(a.Cmd, a.Args) {
+			u.nBiz++
+			u.ids = append(u.ids, lastID(a.Args))
+		}
 	}
 	for i := range apps {
 		a := &apps[i]
@@ -670,6 +704,40 @@ func (e *loopEnv) judge(run *harness.Run, X string) *siteView {
 				fmt.Sprintf("site %s: after both S2 sentinels had crossed (every earlier stream item processed), link %s→%s still executed the business command %s: the exchange does not quiesce", X, v.Y, X, b.id),
 				e.witness(map[string]any{"command": appStr(b.app), "quiet_rounds_completed": e.quietRounds}))
 			break
+		}
+		// forwarded UNITS, with or without business commands: after S2 a link may only write the
+		// units that carry the later sentinels; in the idle rounds (the masters only send their
+		// heartbeat PING) it may write nothing at all
+		perRound := make([]int, len(e.idleMarks[X])+1)
+		for _, u := range v.fwd {
+			if u.idx < from {
+				continue
+			}
+			r := 0
+			for r < len(e.idleMarks[X]) && u.idx >= e.idleMarks[X][r] {
+				r++
+			}
+			perRound[r]++
+			onlySentinels := u.nBiz > 0
+			for _, id := range u.ids {
+				if !isSentinelID(id) || originOf(id) != v.Y {
+					onlySentinels = false
+				}
+			}
+			if onlySentinels {
+				continue
+			}
+			if u.nBiz == 0 {
+				run.Count("empty_units_forwarded_after_S2", 1)
+				e.violation(run, fmt.Sprintf("ping-pong|empty-unit|%s", ctx),
+					fmt.Sprintf("site %s: after both S2 sentinels had crossed and the applications had stopped writing, link %s→%s still wrote a transaction without any business command (marker and recovery record only): every such transaction is traffic the opposite link has to read and suppress, the exchange does not quiesce", X, v.Y, X),
+					e.witness(map[string]any{"transaction": u.dump, "units_forwarded_per_round_after_S2": perRound, "idle_rounds": len(e.idleMarks[X])}))
+				break
+			}
+		}
+		// perRound[0] = the sentinel rounds before the idle rounds, the last entry = the flush round
+		for r := 1; r < len(perRound)-1; r++ {
+			run.Count("units_forwarded_in_idle_rounds", int64(perRound[r]))
 		}
 	}
 	return v
